@@ -6,6 +6,7 @@ Exit 2: harness error / vacuous run (never a VIOLATION line).
 """
 import argparse
 import importlib
+import asyncio
 import json
 import multiprocessing
 import os
@@ -120,6 +121,12 @@ def _guarded_check(mod, case, acc, known_keys):
             raise
         except core.Abort as a:
             raise Violation(a.kind, a.detail) from None
+        except asyncio.CancelledError:
+            # the harness never cancels a task while a case runs: an injected
+            # cancellation of an application handler / callback left the
+            # library call it was running under
+            raise Violation('cancellation-escaped',
+                            traceback.format_exc()[-1500:]) from None
         except Exception as e:
             v = core.as_violation(e)
             if v is None:
@@ -288,6 +295,12 @@ def replay_file(pid, path, quiet=False):
             raise
         except core.Abort as a:
             raise Violation(a.kind, a.detail) from None
+        except asyncio.CancelledError:
+            # the harness never cancels a task while a case runs: an injected
+            # cancellation of an application handler / callback left the
+            # library call it was running under
+            raise Violation('cancellation-escaped',
+                            traceback.format_exc()[-1500:]) from None
         except Exception as e:
             v = core.as_violation(e)
             if v is None:
